@@ -9,7 +9,7 @@ the path manager adds up: ``deterministic_path(times) + StochasticSDEPath.value(
 
 Sub-checks (all lattice sweeps; a case = one configuration, the scripted driver paths are enumerated inside it)
 
- euler     drivers {1-d HEM, 1-d CGMY y=1.2, 2-d Clayton copula of HEM x VG}
+ euler     drivers {1-d HEM, 1-d CGMY y=1.2, 2-d Clayton copula of HEM x VG; thorough: also HEM x CGMY y=1.2}
            x coefficient functions {Constant (default a=None; m=1,2,3 rows), DiagX (d=1,2), LiborSDEFunction (through
              LevyLiborModel with list tenors, and directly with array tenors), ForwardMarketSDEFunction (through
              LevyForwardModel, directly, and through the create_levy_forward_market_model helpers)}
@@ -34,7 +34,8 @@ Sub-checks (all lattice sweeps; a case = one configuration, the scripted driver 
            function object on its own state (a column, component by component).  The sde drift is zero except for
            LevyLiborModel, where the oracle calls the process's own ``sde_drift`` on its own state (the statement does not say
            what the Libor drift is; only when and where it is evaluated is checked).
-           Tolerance |x-y| <= 1e-9 * max(1, max|X|): the two sides differ by re-association only.
+           Tolerance |x-y| <= 1e-9 * max|X| (maximum over the path, which contains x0): the two sides differ by
+           re-association only.
  captured  the same configurations (first initial value), but the real driver is left in place and wrapped so that the path
            it hands over is recorded; 6 paths per configuration under a *scripted* generator (numpy.random.poisson returns
            0,1,3,6,2,4 jumps in turn, uniform/random_sample a Weyl sequence, normal a 5-cycle).  Checks that exactly one driver
@@ -90,7 +91,8 @@ RTOL = 1e-9
 # ----------------------------------------------------------------------------------------------------------------------
 
 DRIVERS = ["hem", "cgmy12", "cop-hem-vg"]
-DRIVER_DIM = {"hem": 1, "cgmy12": 1, "cop-hem-vg": 2}
+DRIVERS_THOROUGH = DRIVERS + ["cop-hem-cgmy12"]  # infinite variation copula: non-trivial diffusion matrix, epsilon < 1
+DRIVER_DIM = {"hem": 1, "cgmy12": 1, "cop-hem-vg": 2, "cop-hem-cgmy12": 2}
 
 TENORS_SHORT = [1, 2, 3]
 
@@ -178,7 +180,7 @@ def cases(tier):
     # ---- euler + captured
     for sub in ("euler", "captured"):
         for level in (0, 1, 2):
-            for drv in DRIVERS:
+            for drv in (DRIVERS_THOROUGH if tier == "thorough" else DRIVERS):
                 d = DRIVER_DIM[drv]
                 for c in coef_specs(d):
                     rates = c["kind"] not in ("default", "constant", "diagx")
@@ -190,16 +192,11 @@ def cases(tier):
                         x0s = x0s[:1]
                     for x0i in x0s:
                         base = {"sub": sub, "driver": drv, "coef": c, "x0": x0i, "level": level, "tier": tier}
-                        if sub == "captured":
-                            out.append(base)
-                        else:
-                            for n in (1, 2, 3):
-                                out.append(dict(base, nsteps=n))
+                        out.append(base)
         if sub == "euler":
             for level in (0, 1):
-                for n in (1, 2):
-                    out.append({"sub": "euler", "driver": "hem", "coef": {"kind": "constant", "m": 1, "c": 2.0}, "x0": "int",
-                                "level": level, "tier": tier, "nsteps": n})
+                out.append({"sub": "euler", "driver": "hem", "coef": {"kind": "constant", "m": 1, "c": 2.0}, "x0": "int",
+                            "level": level, "tier": tier, "max_steps": 2})
     return out
 
 
@@ -219,7 +216,7 @@ def make_driver(name):
         return create_levy_model(ModelType.HEM)()
     if name == "cgmy12":
         return create_levy_model(ModelType.CGMY)(c=1.0, g=15.0, m=20.0, y=1.2)
-    if name == "cop-hem-vg":
+    if name in ("cop-hem-vg", "cop-hem-cgmy12"):
         return create_levy_copula_model(models=_margins(name), copula=create_clayton_copula())
     raise ValueError(name)
 
@@ -228,8 +225,11 @@ def _margins(name):
     from rpylib.model.model import ModelType
     from rpylib.model.utils import create_levy_model
 
-    assert name == "cop-hem-vg"
-    return [create_levy_model(ModelType.HEM)(), create_levy_model(ModelType.VG)()]
+    if name == "cop-hem-vg":
+        return [create_levy_model(ModelType.HEM)(), create_levy_model(ModelType.VG)()]
+    if name == "cop-hem-cgmy12":
+        return [create_levy_model(ModelType.HEM)(), create_levy_model(ModelType.CGMY)(c=1.0, g=15.0, m=20.0, y=1.2)]
+    raise ValueError(name)
 
 
 def make_model(drv, c, x0i):
@@ -493,8 +493,8 @@ def euler_reference(x0, times, W, L, mu, a_fun, sde_fun):
     X[:, 0] = x0
     x = x0.astype(float).copy()
     for i in range(n):
-        t = float(times[i])
-        dt = float(times[i + 1] - times[i])
+        t = times[i]  # numpy scalar, exactly what the schemes hand to a(t, x)
+        dt = times[i + 1] - times[i]
         A = a_fun(t, x.copy())
         dY = (W[:, i + 1] - W[:, i]) + (L[:, i + 1] - L[:, i])
         x = x + (sde_fun(t, x.copy()) + A @ mu) * dt + A @ dY
@@ -603,7 +603,7 @@ class Config:
                              f"{what}: the scheme returned but a(t,x) evaluated on a column state raises {e!r}", None)
                 ok = False
                 continue
-            scale = max(1.0, float(np.max(np.abs(ref))))
+            scale = max(1e-3, float(np.max(np.abs(ref))))
             bad = _first_bad(obs, ref, scale)
             if bad is not None:
                 i = bad[-1]
@@ -614,7 +614,7 @@ class Config:
             cf = closed_form(self.c, d, self.x0, times, W, L, mu)
             if cf is not None:
                 sh.count("evaluations")
-                scale = max(1.0, float(np.max(np.abs(cf))))
+                scale = max(1e-3, float(np.max(np.abs(cf))))
                 bad = _first_bad(obs, cf, scale)
                 if bad is not None:
                     i = bad[-1]
@@ -679,7 +679,9 @@ def _sub_euler(sh, case):
         n_ok = 0
         n_words = 0
         last = None
-        for idx in itertools.product(range(len(letters)), repeat=case["nsteps"]):
+        words = itertools.chain.from_iterable(
+            itertools.product(range(len(letters)), repeat=n) for n in range(1, case.get("max_steps", 3) + 1))
+        for idx in words:
             word = [letters[i] for i in idx]
             n_words += 1
             for (name, obj, simulate, seam_owner, seam_attr, det_path, sde_owner) in cfg.objects:
@@ -710,8 +712,8 @@ def _sub_euler(sh, case):
         sh.count("words", n_words)
         sh.nontriv()
         fin = None if last is None else np.round(np.asarray(last.value())[..., -1], 9).tolist()
-        sh.outcome((cfg.drv, cfg.label, case["x0"], cfg.level, case["nsteps"], n_ok, fin))
-        if case["nsteps"] == 2 and case["x0"] in (0, None) and last is not None and cfg.drv != "cgmy12":
+        sh.outcome((cfg.drv, cfg.label, case["x0"], cfg.level, n_ok, fin))
+        if case["x0"] in (0, None) and last is not None and cfg.drv != "cgmy12":
             sh.sample({"sub": "euler", "driver": cfg.drv, "coef": cfg.label, "level": cfg.level, "words": n_words,
                        "objects": [o[0] for o in cfg.objects], "driver_drifts": [mu.tolist() for mu in cfg.mus],
                        "last_word_final_value_minus_x0": fin})
